@@ -298,3 +298,63 @@ def blowup_entry(rs, rk):
     sp_b = {"kind": "tauleap", "dt": dtb, "t_sample": [0.0, (nst - 0.5) * dtb], "t_max": None, "policy": rs.choice(["on_iteration", "on_t_sample"]),
             "interval": dtb, "seed": rk.bits(31), "isp": "none", "ongrid": False, "steps": nst}
     return rerender_plain({"phys": {"spec": spec_b, "sp": sp_b, "kind": "tauleap"}})
+
+
+def scale_entry(rs, ru, rk, kind, what, steps=(2, 4)):
+    """inputs at scales the ordinary generator never reaches: 33-70 species ("species"), a grid of 4100-5000 cells
+    ("cells4k") or of more than 32767 cells ("cells33k"), with two environments in use and some chemostat flags"""
+    if what == "species":
+        p = dict(n_species=(33, 70), n_reactions=(2, 5), max_cells=4, max_dim=3, graph_nodes=(1, 3), graph_edges=(0, 3),
+                 max_order=2, chem="mixed", n_mol=(5.0, 60.0), integer_state=True, state="explicit", n_envs=(1, 2),
+                 allow_len1_periodic=False)   # (a periodic axis of length 1 makes a cell its own neighbour: C07's variance model excludes it)
+        spec = gen.gen_spec(rs, p)
+        labels = [x["label"] for x in spec["species"]]
+        hi = labels[32:]
+        nenv = len(spec["envs"])
+        from ..models import Model
+        m = Model(spec)
+        ctyp = max(1.0, float(abs(m.x0).mean())) / float(m.V.mean())
+        # reactions that touch species of index >= 32 (and one that does not)
+        a, b = rs.choice(hi), rs.choice(labels[:31])
+        extra = [{"label": None, "sub": {a: 1}, "prod": {rs.choice(hi): 1}, "kf": [rs.loguniform(0.1, 1.0)] * nenv, "kr": [0.0] * nenv},
+                 {"label": None, "sub": {a: 1, b: 1}, "prod": {rs.choice(labels): 1},
+                  "kf": [rs.loguniform(0.05, 0.5) / ctyp] * nenv, "kr": [0.0] * nenv}]
+        spec["reactions"] = (spec["reactions"] + extra)[-5:]
+        # flags on a low and on a high index
+        ch = [0] * (m.ns * m.nc)
+        for k in (rs.randint(0, 31), rs.randint(32, m.ns - 1), rs.randint(0, m.ns - 1)):
+            ch[k * m.nc + rs.randint(0, m.nc - 1)] = 1
+        spec["chem"] = ch
+        return make_script_entry(rs.sub("e"), ru, rk, kind, None, {"steps": steps, "p_seed": 1.0, "policy": "on_iteration",
+                                                                    "isp": "none", "p_explicit_tmax": 1.0, "nreq": (1, 2)},
+                                 rich=False, spec=spec)
+    if what == "cells4k":
+        dims = rs.choice([[65, 64, 1], [17, 16, 16], [4200, 1, 1], [41, 10, 11]])
+    else:
+        dims = rs.choice([[200, 170, 1], [33000, 1, 1], [35, 32, 30]])
+    nc = dims[0] * dims[1] * dims[2]
+    vol = (rs.loguniform(0.5, 2.0) * 1e-6) ** 3
+    h_ = vol ** (1.0 / 3.0)
+    Dd = rs.loguniform(0.05, 1.0) * 1e-12
+    cenv = [rs.randint(0, 1) for _ in range(nc)]
+    st = [float(rs.randint(0, 40)) for _ in range(nc)]
+    ch = [0] * nc
+    for _ in range(max(3, nc // 500)):
+        ch[rs.randint(0, nc - 1)] = 1
+    kdec = rs.loguniform(0.02, 0.2) * Dd / (h_ * h_)
+    spec = {"envs": ["cyt", "mem"],
+            "species": [{"label": "A", "D": [Dd, Dd * rs.uniform(0.1, 0.6)], "dens": [0.0, 0.0], "chst": [0, 0]}],
+            "reactions": [{"label": None, "sub": {"A": 1}, "prod": {}, "kf": [kdec, 0.0], "kr": [0.0, 0.0]}],
+            "space": {"type": "grid", "w": dims[0], "h": dims[1], "d": dims[2],
+                      "bc": [rs.choice(["reflecting", "periodical"]) if dims[k] > 2 else "reflecting" for k in range(3)],
+                      "cell_env": cenv, "vol": vol},
+            "state": st, "chem": ch}
+    nst = rs.randint(*steps)
+    dt = rs.uniform(0.02, 0.1) * h_ * h_ / Dd
+    if kind == "gillespie":
+        # ~nst events in total
+        a0 = sum(st) * (6 * Dd / (h_ * h_) + kdec)
+        dt = 1.0 / max(a0, 1e-300)
+    sp = {"kind": kind, "dt": dt, "t_sample": [0.0, (nst - 0.5) * dt], "t_max": None, "policy": "on_iteration", "interval": dt,
+          "seed": rk.bits(31), "isp": "none", "ongrid": False, "steps": nst}
+    return rerender_plain({"phys": {"spec": spec, "sp": sp, "kind": kind}})
